@@ -79,7 +79,8 @@ def toExpr : Nat → SX → Option Expr
       | "fn", [.atom v] => some (.lit (.fn v))
       | "type", [.atom v] => some (.lit (.type_ v))
       | "var", [.atom v] => some (.var v)
-      | "ref", [.atom v] => some (.ref v)
+      | "ref", [e] => (sub e).map .ref
+      | "setDeref", [r, .atom o, e] => do pure (.setDeref (← sub r) (← setop? o) (← sub e))
       | "deref", [e] => (sub e).map .deref
       | "unop", [.atom o, e] => do pure (.unop (← unop? o) (← sub e))
       | "binop", [.atom o, a, b] => do pure (.binop (← binop? o) (← sub a) (← sub b))
@@ -174,6 +175,7 @@ structure DSt where
   mismatches : Nat := 0
   specfails : Nat := 0
   tableChecked : Nat := 0
+  crashes : Nat := 0
 
 def tally (d : DSt) (io : ImplObs) : DSt :=
   let d := match io.outcome with
@@ -230,9 +232,11 @@ def handle (d : DSt) (n : Nat) (line : String) : IO DSt := do
       | _ => IO.println s!"BADLINE line={n}"
     return d
   | "T" :: _ => return d
-  | "X" :: _ =>
-    IO.println s!"SPECFAIL line={n} case={d.caseNo} clause=value_or_error"
-    return { d with specfails := d.specfails + 1 }
+  | "X" :: sig :: _ =>
+    -- the evaluating child died on this program: "it can only compute a value or raise an error"
+    let clause := if sig == "14" then "no_hang" else "no_crash"
+    IO.println s!"SPECFAIL line={n} case={d.caseNo + 1} clause={clause}"
+    return { d with caseNo := d.caseNo + 1, specfails := d.specfails + 1, crashes := d.crashes + 1 }
   | "P" :: _site :: rest =>
     match parseImpl post, kvOf rest "abs", kvOf rest "root", (kvOf rest "cmp") >>= parseBool? with
     | some io, some abs, some root, some cmp =>
@@ -261,13 +265,20 @@ def handle (d : DSt) (n : Nat) (line : String) : IO DSt := do
     | some io, some ty, some field, some nuv =>
       let cfg := genCfg driverNative (fun t f => t == ty && f == field && nuv)
       let env : Env := { prot := { objects := [("o", { type := ty, attrs := [(field, .str "value")] })] } }
-      let mo := observe cfg fuel (.index (.lit (.obj "o")) (.lit (.str field))) env
+      let direct : Expr := .index (.lit (.obj "o")) (.lit (.str field))
+      let prog : Expr := match kvOf rest "how" with
+        | some "deref" => .deref (.ref direct)
+        | some "derefidx" => .deref (.ref direct)
+        | some "refget" => .mcall (.ref direct) "get" []
+        | _ => direct
+      let mo := observe cfg fuel prog env
       let d := { d with fields := d.fields + 1 }
-      report d n .field nuv io (some mo) true
+      -- `getobj` lines go through natives (get_objects, map …) the model does not interpret: outcome is not compared
+      report d n .field nuv io (some mo) (kvOf rest "how" != some "getobj")
     | _, _, _, _ => IO.println s!"BADLINE line={n}"; return d
   | _ => IO.println s!"BADLINE line={n}"; return d
 
 def main : IO Unit := do
   let stdin ← IO.getStdin
   let d ← foldLines stdin handle ({} : DSt)
-  IO.println s!"STATS cases={d.caseNo} steps={d.caseNo} programs={d.programs} natives={d.natives} fields={d.fields} ok={d.nOk} sandbox={d.nSandbox} hidden={d.nHidden} err={d.nErr} changed={d.changed} leaks={d.leaks} nontrivial={d.nontrivial} table_checked={d.tableChecked} mismatches={d.mismatches} specfails={d.specfails}"
+  IO.println s!"STATS cases={d.caseNo} steps={d.caseNo} programs={d.programs} natives={d.natives} fields={d.fields} ok={d.nOk} sandbox={d.nSandbox} hidden={d.nHidden} err={d.nErr} changed={d.changed} leaks={d.leaks} nontrivial={d.nontrivial} table_checked={d.tableChecked} crashes={d.crashes} mismatches={d.mismatches} specfails={d.specfails}"
